@@ -58,8 +58,8 @@ GroupOps(items) == Group(items, 1, <<>>, <<>>)
 (* ------------------------------ numbers ------------------------------ *)
 DigitOf(ch) == CASE ch = "0" -> 0 [] ch = "1" -> 1 [] ch = "2" -> 2 [] ch = "3" -> 3 [] ch = "4" -> 4 [] ch = "5" -> 5
                  [] ch = "6" -> 6 [] ch = "7" -> 7 [] ch = "8" -> 8 [] OTHER -> 9
-RECURSIVE DigitsVal(_, _, _)
-DigitsVal(s, x, acc) == IF x > Len(s) THEN acc ELSE DigitsVal(s, x + 1, acc * 10 + DigitOf(SubSeq(s, x, x)))
+RECURSIVE StrDigitsVal(_, _, _)
+StrDigitsVal(s, x, acc) == IF x > Len(s) THEN acc ELSE StrDigitsVal(s, x + 1, acc * 10 + DigitOf(SubSeq(s, x, x)))
 RECURSIVE DotAt(_, _)
 DotAt(s, x) == IF x > Len(s) THEN 0 ELSE IF SubSeq(s, x, x) = "." THEN x ELSE DotAt(s, x + 1)
 \* a lexer number -> [neg, int (digit string), micro (value in millionths if the integer part has <= 4 digits, else 0), big]
@@ -71,10 +71,10 @@ NumParts(v) ==
       fp == IF dot = 0 THEN "000000" ELSE SubSeq(body, dot + 1, Len(body))
       big == Len(ip) > 4
   IN [neg |-> neg, int |-> ip, big |-> big,
-      micro |-> IF big THEN 0 ELSE (IF neg THEN 0 - 1 ELSE 1) * (DigitsVal(ip, 1, 0) * 1000000 + DigitsVal(fp, 1, 0))]
+      micro |-> IF big THEN 0 ELSE (IF neg THEN 0 - 1 ELSE 1) * (StrDigitsVal(ip, 1, 0) * 1000000 + StrDigitsVal(fp, 1, 0))]
 Abs(a) == IF a < 0 THEN 0 - a ELSE a
 \* leading digits of a digit string aligned at magnitude L (value div 10^(L-9)), for relative comparison
-Lead9(ds, L) == LET k == Len(ds) - (L - 9) IN IF k <= 0 THEN 0 ELSE DigitsVal(SubSeq(ds, 1, IF k > 9 THEN 9 ELSE k), 1, 0)
+Lead9(ds, L) == LET k == Len(ds) - (L - 9) IN IF k <= 0 THEN 0 ELSE StrDigitsVal(SubSeq(ds, 1, IF k > 9 THEN 9 ELSE k), 1, 0)
 \* does the number `got` render the API argument `want` within `tol` millionths?  `lib`: got went through the
 \* library parser's single-precision operands, so a big value is compared to ~7 significant digits
 NumClose(got, want, tol, lib) ==
